@@ -44,6 +44,7 @@ type Case struct {
 	Regime     int              `json:"regime"`
 	Opts       chaingen.GenOpts `json:"opts"`
 	Foundation bool             `json:"foundation"` // the wallet address is the foundation's primary address
+	Rotate     bool             `json:"rotate"`     // a subsidy every 3 blocks; the foundation address starts with the wallet (Foundation) or the other party and is passed on by address updates
 	Gen        int              `json:"gen"`        // generator version: 0 chaingen.GenW, 2 chaingen.GenW2 (pass-through blocks)
 	Evs        []Ev             `json:"evs"`
 }
@@ -58,6 +59,14 @@ func (c Case) tree() (t *chaingen.Tree) {
 	env := chaingen.NewEnv(r, c.Regime)
 	if c.Foundation {
 		env.Net.HardforkFoundation.PrimaryAddress = env.Addr
+	}
+	if c.Rotate {
+		_, _, oaddr := env.Other()
+		if c.Foundation {
+			env.ShortSubsidyPeriod(env.Addr)
+		} else {
+			env.ShortSubsidyPeriod(oaddr)
+		}
 	}
 	if c.Gen >= 2 {
 		return chaingen.GenW2(r, env, c.Opts)
@@ -348,6 +357,8 @@ func (w *world) check() {
 			kind = "c06-siafund-claim-event-mismatch"
 		} else if len(kinds) == 1 && kinds[wallet.EventTypeV2ContractResolution] {
 			kind = "c06-v2-resolution-event-mismatch"
+		} else if len(kinds) == 1 && kinds[wallet.EventTypeFoundationSubsidy] {
+			kind = "c06-foundation-event-mismatch"
 		}
 		// a whole block's events missing: every difference is a missing event of a block for which the
 		// wallet lists nothing at all (e.g. a block that touches the address only through outputs
@@ -397,7 +408,9 @@ func (w *world) check() {
 	w.revertedSinceCheck = false
 	w.rendered++
 	var us []string
-	sort.Slice(utxos, func(i, j int) bool { return w.ab.hid(types.Hash256(utxos[i].ID)) < w.ab.hid(types.Hash256(utxos[j].ID)) })
+	sort.Slice(utxos, func(i, j int) bool {
+		return w.ab.hid(types.Hash256(utxos[i].ID)) < w.ab.hid(types.Hash256(utxos[j].ID))
+	})
 	for _, e := range utxos {
 		us = append(us, fmt.Sprintf("(%d, (%s)%%Z, %d)", w.ab.hid(types.Hash256(e.ID)), e.SiacoinOutput.Value.ExactString(), e.MaturityHeight))
 	}
@@ -459,7 +472,7 @@ func genCase(r *rng.R, regime int) (Case, *chaingen.Tree) {
 	var cs Case
 	var t *chaingen.Tree
 	for t == nil {
-		cs = Case{Seed: r.U64(), Regime: regime, Gen: 2, Foundation: r.Chance(1, 3), Opts: chaingen.GenOpts{Blocks: 6 + r.Intn(14), Branchiness: 2 + r.Intn(4), TxPerBlock: 2 + r.Intn(4), Corruptions: r.Intn(2), Jitter: r.Intn(3)}}
+		cs = Case{Seed: r.U64(), Regime: regime, Gen: 2, Foundation: r.Chance(1, 3), Rotate: r.Chance(1, 3), Opts: chaingen.GenOpts{Blocks: 6 + r.Intn(14), Branchiness: 2 + r.Intn(4), TxPerBlock: 2 + r.Intn(4), Corruptions: r.Intn(2), Jitter: r.Intn(3)}}
 		if regime >= 3 && r.Bool() {
 			cs.Opts.Jitter = 4000
 		}
@@ -583,6 +596,17 @@ func run(c *hx.Ctx) {
 			}
 			if only && len(n.Block.MinerPayouts) == 1 && n.Block.MinerPayouts[0].Address != t.Env.Addr {
 				res.Count("blocks-touching-the-wallet-only-through-pass-through-outputs")
+			}
+			if n.Parent != nil && n.ChainValid() && n.FullState.FoundationSubsidyAddress != n.Parent.FullState.FoundationSubsidyAddress {
+				if _, ok := n.Parent.FullState.FoundationSubsidy(); ok {
+					if n.Parent.FullState.FoundationSubsidyAddress == t.Env.Addr {
+						res.Count("subsidy-blocks-with-address-update:wallet-is-the-outgoing-foundation")
+					} else if n.FullState.FoundationSubsidyAddress == t.Env.Addr {
+						res.Count("subsidy-blocks-with-address-update:wallet-is-the-incoming-foundation")
+					}
+				} else {
+					res.Count("foundation-address-updates-in-other-blocks")
+				}
 			}
 		}
 		if w.fail != nil {
